@@ -32,6 +32,8 @@ THEOREMS = [
     "Qentem.Props.C11.identifies9",
     "Qentem.Props.C11.roundtrip17_of_parser",
     "Qentem.Props.C11.roundtrip9_of_parser",
+    "Qentem.Props.C11.text_margin17",
+    "Qentem.Props.C11.text_margin9",
     "Qentem.Props.C11.identifies_boundary_instances",
 ]
 OPEN = [
